@@ -134,6 +134,10 @@ def plan_seq(pid, tier, seed, ncpu):
         if pid == "C04":
             # size-aware caches with hundreds of entries: one update that needs more than one eviction batch
             js += seq_jobs(bindirs["dbg"], workdir, known, pid, "bulk", scale(tier, 240, 6000), 1300, seed, 3, prefix="bulk")
+        if pid in ("C01", "C03", "C05", "C06", "C07"):
+            # far future: scripted scenarios centuries after the cache was built (beyond 2^64 ns), both caches
+            out = os.path.join(workdir, "farfuture.json")
+            js.append(dict(name="farfuture", argv=[os.path.join(bindirs["dbg"], "cfgmon"), "--far-future", "1", "--prop", pid, "--out", out], out=out, kind="report"))
         if pid in ("C07", "C01"):
             # invalidate_all over more admitted entries than one maintenance run purges
             js += seq_jobs(bindirs["dbg"], workdir, known, pid, "bulk", scale(tier, 180, 4500), 1300, seed, 3, prefix="bulk")
@@ -215,9 +219,13 @@ def plan_seq(pid, tier, seed, ncpu):
                       "(by the clock) before the observation began (least fixpoint).")
     fl = {k: int(v * (1 if tier == "quick" else min(mult, 10))) for k, v in floors.items()}
     fl.update(extra_floors)
+    if pid in ("C01", "C03", "C05", "C06", "C07"):
+        fl["far_future_expectations_checked"] = 100
+        fault_rule = (" Far-future clause: scripted scenarios on both caches with the clock 10 to 1600 years after the cache was built (beyond 2^64 ns): invalidate_all "
+                      "585 years after the inserts, time_to_live of 600 and 1000 years probed a year / 1 ns before and at the deadline, time_to_idle of 600 years kept alive by gets.")
     if pid in ("C01", "C05", "C06", "C07", "C03", "C10", "C16", "C04", "C12", "C13"):
         fl["faults_fired"] = 1000 * m10
-        fault_rule = (" Fault clause: in a share of the histories a callback of the caller (V::clone, the weigher, the predicate of invalidate_entries_if) panics at a chosen "
+        fault_rule += (" Fault clause: in a share of the histories a callback of the caller (V::clone, the weigher, the predicate of invalidate_entries_if) panics at a chosen "
                        "call of the next operation; if nothing at all changed the operation did not happen, otherwise the ground truth follows the physical outcome (an insert whose value is in "
                        "the map happened, one whose value is not did not; an invalidation removed what is gone) and every monitor goes on from the implementation's own post-state.")
     variants = ["dbg"] + (["rel"] if pid in ("C03", "C04", "C10") else []) + (["dbg0"] if pid in ("C04", "C10", "C05", "C06") else [])
